@@ -190,7 +190,15 @@ func asmApply(e *asm.Emitter, op sim.Op) (panicked bool, msg string) {
 		case "label":
 			e.Label(labelName(op.Arg(0)))
 		case "data":
-			e.EmitBytes([]byte(op.B))
+			// the caller owns the slice it passes and may reuse it right after the call: hand
+			// over a private copy and scribble over it afterwards
+			buf := append([]byte{}, op.B...)
+			defer func() {
+				for i := range buf {
+					buf[i] ^= 0xFF
+				}
+			}()
+			e.EmitBytes(buf)
 		case "comment":
 			e.Comment(op.S)
 		case "rep":
@@ -227,6 +235,7 @@ type listItem struct {
 
 type asmModel struct {
 	HasTarget bool
+	NoCap     bool // emitting into a roomy clone: capacity is checked at Append
 	Cap       int
 	Len       int
 	Base      uint32
@@ -295,7 +304,7 @@ func (m *asmModel) flushBase() {
 func (m *asmModel) step(op sim.Op) asmOutcome {
 	out := asmOutcome{FlagsBefore: m.Flags}
 	size := opSize(op)
-	fits := !m.HasTarget || m.Len+size <= m.Cap
+	fits := !m.HasTarget || m.NoCap || m.Len+size <= m.Cap
 	switch op.K {
 	case "setbase":
 		m.Base = uint32(op.Arg(0))
